@@ -32,8 +32,7 @@ def run(pid, tier, seed):
         "z3 5.1 (E-matching, no MBQI); ground instances of the assumed invariant are added on demand",
     ]
     rep.assumptions = [
-        "bounded-mode obligations (kind=bounded): loops over symbolic containers are unrolled for containers of at most K elements (K=1..2, per method in vf/props/e1_graph.py:config), everything else unbounded; never counted as proved",
-        "SCRG.remove_atom is verified against the CONTRACT of StereoMolGraph.remove_atom (modular), which is itself verified in bounded mode",
+        "loops (remove_atom of the four classes) are verified with side-car loop invariants (vf/contracts/loop_invariants.py): init / preservation on a generic element / exit; iteration order arbitrary; termination not proved",
         "E3 companion: universe of 4 identifiers, depth / walk bounds in vf/e3/history.py",
     ]
     rep.rule = "E1: one VC per (class, method, symbolic path, clause); E3: lockstep histories; distinct_nontrivial = distinct (class, start, history) states of the bounded part"
